@@ -10,11 +10,12 @@ Lemma real_sn_chars : sn_charsb RT = true.   Proof. vm_compute. reflexivity. Qed
 Lemma real_ref_chars : ref_charsb RT = true. Proof. vm_compute. reflexivity. Qed.
 
 (* hence, for the real loader model: *)
-Theorem real_load_StOf s bs t st : LOAD s bs = Val (Ret t st) -> late_freeb RT t = true -> StOf RT st t.
+Theorem real_load_StOf_all s bs t st : LOAD s bs = Val (Ret t st) -> StOf RT st t.
 Proof.
-  intros L LF. exact (load_StOf RT tab_element tab_attr tab_enum accept_all no_float s bs t st tables_ok_real real_sn_chars real_ref_chars L
-                        (late_freeb_spec RT t LF)).
+  intros L. exact (load_StOf_all RT tab_element tab_attr tab_enum accept_all no_float s bs t st tables_ok_real real_sn_chars real_ref_chars L).
 Qed.
+Theorem real_load_StOf s bs t st : LOAD s bs = Val (Ret t st) -> late_freeb RT t = true -> StOf RT st t.
+Proof. intros L _. exact (real_load_StOf_all s bs t st L). Qed.
 
 (* what is recorded (oldest first, paths as text) versus the specification-side reading *)
 Definition recorded (s : bool) (d : list N) :=
@@ -43,24 +44,31 @@ Example rec_named :
         [(BS "/Pkg/E", [0; 0; 1; 0; 1; 0; 0]%nat)], [(BS "/Pkg/E", [0; 0; 1; 0; 1; 0; 0]%nat)]).
 Proof. vm_compute. reflexivity. Qed.
 
-(* late SHORT-NAME, accepted by STRICT loading: the loader records the inner element under the parent's path (/Sys, not
-   /Pkg/Sys) and then the package as /Pkg; the specification-side reading has /Sys only (the package is not named there,
-   its first content item is not a SHORT-NAME): the lists differ - late_freeb = false *)
-Example rec_late :
-  recorded true doc_late =
-  Some (false, [(BS "/Sys", [0; 0; 0; 0]%nat); (BS "/Pkg", [0; 0]%nat)], [(BS "/Sys", [0; 0; 0; 0]%nat)], [], []).
-Proof. vm_compute. reflexivity. Qed.
+(* late SHORT-NAME (regression of the fixed defect: strict loading used to accept it and to index /Sys and /Pkg): strict
+   loading now fails with RequiredSubelementMissing at the package; lenient loading warns with the same finding, records
+   /Sys only - as the specification-side reading does *)
+Definition strict_error (d : list N) : option pkind :=
+  match LOAD true d with Val (Raise (ErrParse _ k _ _) _) => Some k | _ => None end.
+Definition lenient_warnings (d : list N) : option (list pkind) :=
+  match LOAD false d with
+  | Val (Ret _ st) => Some (map (fun e => match e with ErrParse _ k _ _ => k | _ => InvalidArxmlFileHeader end) (p_warnings st))
+  | _ => None
+  end.
+Example rec_late_fixed :
+  strict_error doc_late = Some RequiredSubelementMissing /\
+  lenient_warnings doc_late = Some [RequiredSubelementMissing] /\
+  recorded false doc_late = Some (false, [(BS "/Sys", [0; 0; 0; 0]%nat)], [(BS "/Sys", [0; 0; 0; 0]%nat)], [], []).
+Proof. repeat split; vm_compute; reflexivity. Qed.
 
 (* <SHORT-NAME/> : no entry for the package on either side, the path stays the parent's; the readings agree *)
 Example rec_nameless :
   recorded true doc_nameless = Some (true, [(BS "/Sys", [0; 0; 1; 0]%nat)], [(BS "/Sys", [0; 0; 1; 0]%nat)], [], []).
 Proof. vm_compute. reflexivity. Qed.
 
-(* a second SHORT-NAME is rejected by strict loading; lenient loading records the package twice (/A, then /A/B) and what
-   follows under /A/B *)
-Example rec_twice :
+(* a second SHORT-NAME is rejected by strict loading; lenient loading ignores it for naming: /A and /A/Sys on both sides *)
+Example rec_twice_fixed :
   recorded true doc_twice = None /\
   recorded false doc_twice =
-  Some (false, [(BS "/A", [0; 0]%nat); (BS "/A/B", [0; 0]%nat); (BS "/A/B/Sys", [0; 0; 2; 0]%nat)],
+  Some (false, [(BS "/A", [0; 0]%nat); (BS "/A/Sys", [0; 0; 2; 0]%nat)],
                [(BS "/A", [0; 0]%nat); (BS "/A/Sys", [0; 0; 2; 0]%nat)], [], []).
 Proof. split; vm_compute; reflexivity. Qed.
